@@ -467,18 +467,23 @@ class Formatter(ABC):
         :rtype: str
         :returns: A string value that was formatted from format string pattern.
         """
-        fmt = fmt.replace("%%", "[ESCAPE]")
-        for _fmt_match in re.finditer(r"(%[-+!*]?[A-Za-z])", fmt):
-            _fmt_str: str = _fmt_match.group(0)
+
+        def _to_value(fmt_match: re.Match[str]) -> str:
+            _fmt_str: str = fmt_match.group(0)
+            if _fmt_str == "%%":
+                return "%"
             try:
                 _value = self.asset[_fmt_str].fmt(self.value)
-                fmt = fmt.replace(_fmt_str, _value())
             except KeyError as err:
                 raise FormatterKeyError(
                     f"the format: {_fmt_str!r} does not support for "
                     f"{self.__class__.__name__!r}"
                 ) from err
-        return fmt.replace("[ESCAPE]", "%")
+            return _value()  # type: ignore[no-any-return]
+
+        # NOTE: read the format string in one pass from left to right, the
+        #   same way that the gen_format method reads it.
+        return re.sub(r"%%|%[-+!*]?[A-Za-z]", _to_value, fmt)
 
     def valid(self, value: str, fmt: str) -> bool:
         """Return a True value if the value from ``cls.parse`` of a string
